@@ -64,6 +64,10 @@ PROBES = [
     ("extern-all", [("a.mac", ".extern all\np1: .word q1\n"), ("b.mac", "q1:: .word p1\n")]),
     ("unused-errors", [("p.mac", "a1 = nosuch1\nzz9 = nosuch2\nc1 = 5/0\nm5 = 1 << q\nq = 0-1\nb2 = nosuch3 + 1\n nop\n")]),
     ("undefined-after-define", [("p.mac", "v = 10\n.word v, w\n")]),
+    # a file whose name starts with a tilde (device names look like that): found beside the source that names it, whatever was opened before
+    ("tilde-path", [("p.mac", ".include \"~tilde\"\n.word tilde\ninsert_file \"~tilde\"\nmake_raw \"~outt\"\n")]),
+    ("tilde-output", [("p.mac", "make_raw \"~outt\"\nmake_bin \"~Outb\"\n nop\n")]),
+    ("tape-names", [("p.mac", "make_wav \"a.wav\", \"FIRST\"\nmake_wav \"b.wav\", \"SECOND\"\nmake_turbo_wav \"c.wav\", \"\"\nmake_wav \"d.wav\"\n .word 1, 2\n")]),
 ]
 
 _WSRC = "word 1\n clr @r1\n emt #1\n clr @(r2)\n.byte\n br 1+2\n1: nop\nmov: nop\n.word 'a'\n nop nop\n.list\n"
@@ -94,6 +98,7 @@ FAILERS = [
 INC_FILES = {
     "inc1.mac": "inc1lab: .word 1, 2\n  mov #inc1lab, r0\n",
     "inc2.mac": ".once\ninc2v = 5\n .byte inc2v\n .even\n",
+    "~tilde": "tilde: .word 5\n",
     # content whose meaning depends on where and by whom it is included: '.'-dependent non-linear values, an index operand whose
     # tree is rearranged while it is encoded, a compound branch operand whose first number is a local label, a name the includer exports
     "inc3.mac": "inc3: .word ./2, . % 10., inc3 >> 1\n mov tab3+2*2(r1), r0\n br 1+2\n1: nop\n nop\ntab3: .word hostv, 0\n .repeat 2 { .word ./4 }\n",
@@ -134,6 +139,51 @@ def observable(o, root):
             "exc": o.exc_type}
 
 
+TILDE_TEXTS = [".include \"~tilde\"\n", "insert_file \"~tilde\"\n", "make_raw \"~tilde\"\n nop\n", "make_wav \"~outt\"\n nop\n", ".include \"~nosuch\"\n",
+               "insert_file \"~Tilde\"\n", "make_bin \"~OUTT\"\n nop\n"]
+
+
+def near_variant(rnd, files):
+    """The probe with one small thing changed: a character inside a quoted string (a tape name, a path, text), a digit of a number, the
+    letter case of a word, the name of the source file.  Whatever is remembered about this text must not be taken for the probe's."""
+    import re as _re
+    files = [[n, t] for n, t in files]
+    f = rnd.choice(files)
+    how = rnd.choice(["string", "string", "string", "digit", "case", "filename"])
+    text = f[1]
+    if how == "string":
+        spots = [m for m in _re.finditer(r"\"([^\"\n]+)\"", text)]
+        if spots:
+            m = rnd.choice(spots)
+            s = m.group(1)
+            k = rnd.randrange(len(s))
+            c = "X" if s[k] != "X" else "Y"
+            if s[k] in "./~\\":
+                c = s[k]
+            s2 = s[:k] + c + s[k + 1:]
+            if rnd.random() < 0.3:
+                s2 = s + "Q"
+            f[1] = text[:m.start(1)] + s2 + text[m.end(1):]
+            return files
+        how = "digit"
+    if how == "digit":
+        spots = [m for m in _re.finditer(r"(?<![\w$.])[0-7]+(?![\w$.])", text)]
+        if spots:
+            m = rnd.choice(spots)
+            d = m.group(0)
+            f[1] = text[:m.start()] + d[:-1] + str((int(d[-1]) + 1) % 8) + text[m.end():]
+            return files
+        how = "case"
+    if how == "case":
+        spots = [m for m in _re.finditer(r"[A-Za-z_][A-Za-z_0-9]*", text)]
+        if spots:
+            m = rnd.choice(spots)
+            f[1] = text[:m.start()] + m.group(0).swapcase() + text[m.end():]
+            return files
+    f[0] = "v" + f[0]
+    return files
+
+
 def gen_history(rnd, maxlen, root):
     from vlib import gen
     n = rnd.randrange(0, maxlen + 1)
@@ -143,7 +193,10 @@ def gen_history(rnd, maxlen, root):
         if r < 0.25:
             name, files = rnd.choice(PROBES)
             hist.append(["probe:" + name, files])
-        elif r < 0.30:
+        elif r < 0.28:
+            # a source given by a bare relative name (as an API user may do); paths that start with a tilde
+            hist.append(["bare:tilde", [["first.mac", rnd.choice(TILDE_TEXTS)]]])
+        elif r < 0.32:
             # a long, perfectly ordinary program
             n = rnd.choice([120, 302, 700])
             hist.append(["long-valid", [["h.mac", "".join(f"w{i}: .word {i % 8}, w{max(0, i - 1)}\n" for i in range(n))]]])
@@ -197,9 +250,9 @@ def run_in_child(fn, out_path, timeout=300):
         return {"child_error": "no result"}
 
 
-def assemble_files(files, root, budget=4_000_000):
+def assemble_files(files, root, budget=4_000_000, bare=False):
     from vlib import asm
-    fl = [(os.path.join(root, n), t) for n, t in files]
+    fl = [(n if bare else os.path.join(root, n), t) for n, t in files]
     return asm.assemble(fl, budget=budget, wall=120, reset=False)
 
 
@@ -210,7 +263,17 @@ def run_history(history, probes, root):
     aborted = False
     hist_sig = []
     for kind, files in history:
-        o = assemble_files(files, root)
+        o = assemble_files(files, root, bare=kind.startswith("bare:"))
+        if o.cls == "ok" and o.emitted:
+            observable(o, root)          # run the container encoders as a real run would
+            if kind.startswith(("bare:", "near:", "probe:")) and o.compiler is not None:
+                # ... and write the files (texts of this check's own making only: their targets lie under the scratch directories)
+                from pdpy11 import reports as _reports
+                try:
+                    with _reports.handle_reports(lambda *a: None):
+                        o.compiler.emit_files(o.base, o.code)
+                except BaseException:  # pylint: disable=broad-except
+                    pass
         hist_sig.append(f"{kind}>{o.cls}" + (f":{o.exc_type}" if o.exc_type else ""))
         if o.cls == "nonterm" or o.cls == "stall":
             aborted = True
@@ -285,6 +348,15 @@ def run_shard(spec):
         for i in range(spec["count"]):
             history = gen_history(rnd, maxlen, root)
             probes = rnd.sample([p[0] for p in PROBES], rnd.randrange(2, 6))
+            if rnd.random() < 0.6:
+                # near misses of the probes themselves, late in the history
+                for pn in rnd.sample(probes, rnd.randrange(1, min(3, len(probes)) + 1)):
+                    if rnd.random() < 0.25:
+                        # the very same text, given under a bare relative file name
+                        kind, var = "bare:near:" + pn, [[n, tx] for n, tx in dict(PROBES)[pn]]
+                    else:
+                        kind, var = "near:" + pn, near_variant(rnd, dict(PROBES)[pn])
+                    history.insert(rnd.randrange(max(0, len(history) - 2), len(history) + 1), [kind, var])
             case = {"history": history, "probes": probes, "hashseed": spec["hashseed"]}
             vs, info = check_history(case, fresh, root, outp, cnt)
             res["violations"].extend(vs)
